@@ -204,7 +204,150 @@ META = dict(
     level="proof", assumptions=["A1", "A2", "A6", "A7", "A9"],
     trusted=["estimator protocol: predict_proba of a fitted binary classifier is a deterministic row-wise function with two columns",
              "boolean-mask gather/scatter lemmas (rank/unrank); ghost functions P / onpath are defined by their one-level unfolding (induction on subtree height)"],
-    not_applicable=["fit (node indices distinct and below n_nodes_, depth <= max_depth, fit_improve intercept search), get_leaves_index, rows summing to one "
-                    "(property of the member classifiers): bounded stand-in; the recursive fit with its closure over label sets is outside the executor subset",
+    not_applicable=["fit_improve (intercept search), get_leaves_index / enumerate_leaves_index (recursive generator), rows summing to one (property of the "
+                    "member classifiers): bounded stand-in.  Proved about fit: the recursive node fit (real closure _fit_side, real recursion with a "
+                    "decreases clause max_depth - depth) builds a WELL-NUMBERED subtree - every index in [index, returned value], parents before children, "
+                    "all of `above` before all of `below`, depth of a child = depth + 1 <= max_depth - and _fit_parallel makes the root node 0 at depth 1 "
+                    "with n_nodes_ = returned value + 1; by induction on the tree (one-level unfolding of the ghost predicate) all node indices are "
+                    "distinct and below n_nodes_ and no node is deeper than max_depth.  Observation (not a violation): a side that gets no node still "
+                    "consumes an index, so n_nodes_ may exceed the number of nodes",
                     "termination of the recursions is by the height of the (finite) node tree - assumed well-founded (A9)"],
 )
+
+
+# ----------------------------------------------------------------------------------------------------------------------
+# building the tree: node indices form nested, disjoint intervals; depth never exceeds max_depth
+hiF = z3.Function("last_index_of_subtree", z3.IntSort(), z3.IntSort())       # ghost: largest node index in the subtree of a node
+okF = z3.Function("subtree_well_numbered", z3.IntSort(), z3.BoolSort())      # ghost: defined by one-level unfolding (fit_unfold)
+
+
+def _dtlr(E):
+    est = models.new_estimator(E, "estimator", methods=ESTM)
+    f = dict(estimator=est, max_depth=E.size("max_depth", 1), min_samples_split=E.int("min_samples_split"), min_samples_leaf=E.int("min_samples_leaf"),
+             min_weight_fraction_leaf=E.real("min_weight_fraction_leaf"), fit_improve_algo="auto", p1p2=E.real("p1p2"), gamma=E.real("gamma"), verbose=0,
+             strategy="parallel")
+    return E.new_obj(F + "::DecisionTreeLogisticRegression", f)
+
+
+def pid_of(E, n):
+    if "$pid" not in n.fields:
+        n.fields["$pid"] = E.int("node_id")
+    return n.fields["$pid"]
+
+
+def fit_unfold(E, n, max_depth):
+    """one-level definition of the ghost predicate at a node whose children are known objects (or None): the indices of the subtree
+    lie in [index, hi]; `above` lies strictly after the node, `below` strictly after everything in `above`; depths grow by one and
+    stay within max_depth; both children are well numbered themselves.  (By induction on the tree: all indices of a well-numbered
+    tree are distinct and lie in [root index, hi(root)], all depths are <= max_depth.)"""
+    pid = pid_of(E, n)
+    idx, dep = z(n.fields["index"]), z(n.fields["depth"])
+    ab, be = n.fields.get("above"), n.fields.get("below")
+    conj = [dep <= z(max_depth), hiF(pid) >= idx]
+    ub = idx
+    for ch in (ab, be):
+        if ch is not None:
+            cp = pid_of(E, ch)
+            conj += [z(ch.fields["index"]) > ub, z(ch.fields["depth"]) == dep + 1, okF(cp), hiF(cp) >= z(ch.fields["index"]), hiF(pid) >= hiF(cp)]
+            ub = hiF(cp)
+    return okF(pid) == z3.And(*conj)
+
+
+@contract(F + "::_DecisionTreeLogisticRegressionNode.fit_improve", "C10", assumed=True)
+class FitImprove(Contract):
+    """ASSUMED (intercept search of a linear classifier): returns the (n, 2) probabilities of the node's classifier"""
+
+    def result(self, E, a, old):
+        return NdArr.fresh("prob", (a.X.shape[0], 2), "real")
+
+
+@contract(F + "::_DecisionTreeLogisticRegressionNode.fit", "C10")
+class NodeFit(Contract):
+    """recursive contract (induction on max_depth - depth): the subtree built below a node is well numbered - every index lies in
+    [index, returned value], parents before children, everything of `above` before everything of `below` (hence all distinct) -
+    and no node is deeper than max_depth.  (A side without a node still consumes an index: the numbering may have gaps.)"""
+    variants = [False, True]          # without / with sample weights
+    max_paths = 20000
+
+    def setup(self, E, has_w):
+        est = models.new_estimator(E, "node_clf", methods=ESTM)
+        n = E.size("n", 1)
+        nd = E.new_obj(F + "::_DecisionTreeLogisticRegressionNode",
+                       dict(index=E.int("index"), estimator=est, above=None, below=None, threshold=E.real("threshold"), depth=E.int("depth")))
+        pid_of(E, nd)
+        return dict(self=nd, X=E.nd("X", (n, E.size("d", 1))), y=E.nd("y", (n,), "int"), sample_weight=E.nd("w", (n,)) if has_w else None,
+                    dtlr=_dtlr(E), total_N=E.int("total_N"))
+
+    def requires(self, E, a):
+        s = a.self
+        return {"node_not_deeper_than_max_depth": z3.And(z(s.fields["depth"]) >= 1, z(s.fields["depth"]) <= z(a.dtlr.fields["max_depth"])),
+                "a_fresh_node_without_children": z3.BoolVal(s.fields.get("above") is None and s.fields.get("below") is None),
+                "one_label_per_row": z(a.y.shape[0]) == z(a.X.shape[0]), "total_positive": z(a.total_N) >= 1}
+
+    def decreases(self, E, a):
+        return z(a.dtlr.fields["max_depth"]) - z(a.self.fields["depth"])
+
+    def old(self, E, a):
+        return dict(index=a.self.fields["index"], depth=a.self.fields["depth"])
+
+    def result(self, E, a, old):
+        # at the recursive call sites: the child's own subtree is summarised by the ghost functions of its id
+        s = a.self
+        pid_of(E, s)
+        old["callsite"] = True
+        return E.int("last_index")
+
+    def ensures(self, E, a, res, old, overlap=False):
+        s = a.self
+        pid = pid_of(E, s)
+        if old.get("callsite"):
+            return {"summary": z3.And(okF(pid), hiF(pid) == z(res), z(res) >= z(s.fields["index"]))}
+        md = a.dtlr.fields["max_depth"]
+        E.assume(hiF(pid) == z(res))                        # ghost definition: hi(node) IS the value its (single) fit returns
+        E.assume(fit_unfold(E, s, md))                      # definition of the ghost predicate at THIS node (its children are now known)
+        out = {"index_and_depth_of_the_node_are_not_changed": z3.BoolVal(s.fields["index"] is old["index"] and s.fields["depth"] is old["depth"])}
+        ab, be = s.fields.get("above"), s.fields.get("below")
+        idx = z(s.fields["index"])
+        ub = idx
+        # what the code returns: a side without a node still consumes the index proposed for it (the numbering may have gaps)
+        last = idx
+        for name, ch in (("above", ab), ("below", be)):
+            if ch is None:
+                last = last + 1
+                continue
+            cp = pid_of(E, ch)
+            out["%s_is_numbered_after_everything_before_it_and_one_level_deeper" % name] = z3.And(
+                (z(ch.fields["index"]) > ub + (1 if overlap else 0)) if not overlap else (z(ch.fields["index"]) > hiF(cp)),
+                z(ch.fields["depth"]) == z(s.fields["depth"]) + 1, z(ch.fields["depth"]) <= z(md))
+            ub = hiF(cp)
+            last = hiF(cp)
+        exact = z(res) == last if (ab is not None or be is not None) else z3.Or(z(res) == idx, z(res) == last)    # early return: the node's own index
+        out["returns_an_index_not_below_any_index_of_the_subtree"] = z3.And(exact, z(res) >= ub, z(res) >= idx)
+        out["subtree_is_well_numbered_and_within_max_depth"] = z3.And(okF(pid), hiF(pid) == z(res))
+        return out
+
+    canaries = {"a_child_numbered_after_its_own_subtree": lambda E, a, res, old: z3.And(*[v for k_, v in NodeFit().ensures(E, a, res, old, overlap=True).items()
+                                                                                        if k_.endswith("one_level_deeper")] or [z3.BoolVal(False)])}
+
+
+@contract(F + "::DecisionTreeLogisticRegression._fit_parallel", "C10")
+class FitParallel(Contract):
+    """the root is node 0 at depth 1 <= max_depth; n_nodes_ is the last index of the well-numbered tree plus one"""
+    variants = [False, True]
+
+    def setup(self, E, has_w):
+        n = E.size("n", 1)
+        s = _dtlr(E)
+        s.fields["classes_"] = E.nd("classes", (2,), "int")
+        return dict(self=s, X=E.nd("X", (n, E.size("d", 1))), y=E.nd("y", (n,), "int"), sample_weight=E.nd("w", (n,)) if has_w else None)
+
+    def ensures(self, E, a, res, old):
+        s = a.self
+        root = s.fields.get("tree_")
+        ok = isinstance(root, Obj)
+        out = {"returns_self": z3.BoolVal(res is s), "tree_is_a_node": z3.BoolVal(ok)}
+        if ok:
+            pid = pid_of(E, root)
+            out["root_is_node_zero_at_depth_one"] = z3.And(z(root.fields["index"]) == 0, z(root.fields["depth"]) == 1)
+            out["tree_well_numbered_and_n_nodes_is_last_index_plus_one"] = z3.And(okF(pid), z(s.fields["n_nodes_"]) == hiF(pid) + 1, hiF(pid) >= 0)
+        return out
